@@ -598,6 +598,8 @@ RULES = [("depth-units", rule_depth_units), ("sequence", rule_sequence), ("pv-le
 RULES += engine.premise_rules("c01", ["filter", "probe"])
 # the reported score / move of an iteration is what its completed root search recorded
 RULES += engine.premise_rules("c11", ["root-result"])
+# "a search limited to depth N": the N the loop is bounded by is the N the GUI sent
+RULES += engine.premise_rules("c09", ["go-keywords"])
 
 
 def run(tier):
